@@ -480,7 +480,11 @@ func init() {
 		e.needCivil(t, "Clock")
 		return TupleV{t.H, t.Mi, t.S}
 	})
-	stubs["(time.Time).ZoneBounds"] = stubTimeMethod(func(e *Engine, st *State, t TimeV, args []Value, pos token.Pos) Value {
+	stubs["(time.Time).ZoneBounds"] = func(e *Engine, st *State, fr *Frame, fn *ssa.Function, args []Value, pos token.Pos) []exit {
+		t, ok := args[0].(TimeV)
+		if !ok {
+			panic(unsupported("time method on non-model value"))
+		}
 		e.needCivil(t, "ZoneBounds")
 		zero := e.zeroTime()
 		if t.UTC.IsTrue() || e.opt.Zone < 2 {
@@ -488,18 +492,30 @@ func init() {
 				panic(unsupported("ZoneBounds of a time whose location is symbolic"))
 			}
 			// UTC and fixed-offset zones have no transitions
-			return TupleV{zero, zero}
+			return retExit(st, TupleV{zero, zero})
 		}
 		if t.Bef == nil || !t.UTC.IsFalse() {
 			panic(unsupported("ZoneBounds of a local time not built by a modelled constructor"))
 		}
-		// zero values of the local flavour so that both sides merge
-		zl := zero
-		zl.Off, zl.Bef, zl.Rel = e.bv64(0), e.tc.True, e.z24(0)
-		tt := e.transitionTime(st)
-		zl.UTC = e.tc.True
-		return TupleV{e.iteTime(t.Bef, zl, tt), e.iteTime(t.Bef, tt, zl)}
-	})
+		// two paths: the time lies before the zone's transition (no start, end = transition) or after it
+		var out []exit
+		befOK := e.feasible(st, t.Bef, "ZoneBounds before")
+		aftOK := !befOK || e.feasible(st, e.tc.Not(t.Bef), "ZoneBounds after")
+		if befOK {
+			s2 := st
+			if aftOK {
+				s2 = st.fork()
+				e.stats.States++
+			}
+			s2.assume(t.Bef)
+			out = append(out, exit{st: s2, kind: exitReturn, val: TupleV{zero, e.transitionTime(s2)}})
+		}
+		if aftOK {
+			st.assume(e.tc.Not(t.Bef))
+			out = append(out, exit{st: st, kind: exitReturn, val: TupleV{e.transitionTime(st), zero}})
+		}
+		return out
+	}
 	stubs["(time.Time).YearDay"] = stubTimeMethod(func(e *Engine, st *State, t TimeV, args []Value, pos token.Pos) Value {
 		e.needCivil(t, "YearDay")
 		c := e.tc
@@ -698,11 +714,21 @@ func (e *Engine) timeAdd(st *State, t TimeV, d *Term) Value {
 // time.Hour, time.Minute, time.Second); ok=false otherwise.
 func (e *Engine) exactDiv(t *Term, k uint64) (*Term, bool) {
 	c := e.tc
+	w := t.Sort.W
+	cval := func(x *Term) int64 {
+		if w == 64 {
+			return x.SVal()
+		}
+		return int64(x.C) // narrow terms come from width reduction of non-negative values
+	}
 	switch t.Op {
 	case OpConst:
-		v := t.SVal()
-		if v%int64(k) == 0 {
-			return e.bv64(v / int64(k)), true
+		if v := cval(t); v%int64(k) == 0 {
+			return c.BV(uint64(v/int64(k)), w), true
+		}
+	case OpZeroExt:
+		if a, ok := e.exactDiv(t.Args[0], k); ok {
+			return c.ZeroExt(a, t.Hi), true
 		}
 	case OpBVAdd, OpBVSub:
 		a, ok1 := e.exactDiv(t.Args[0], k)
@@ -715,8 +741,8 @@ func (e *Engine) exactDiv(t *Term, k uint64) (*Term, bool) {
 		}
 	case OpBVMul:
 		for i := 0; i < 2; i++ {
-			if t.Args[i].Op == OpConst && t.Args[i].SVal()%int64(k) == 0 {
-				return c.BVMul(t.Args[1-i], e.bv64(t.Args[i].SVal()/int64(k))), true
+			if t.Args[i].Op == OpConst && cval(t.Args[i])%int64(k) == 0 {
+				return c.BVMul(t.Args[1-i], c.BV(uint64(cval(t.Args[i])/int64(k)), w)), true
 			}
 		}
 		for i := 0; i < 2; i++ {
@@ -743,7 +769,7 @@ func (e *Engine) civilAdd(st *State, t TimeV, d *Term) Value {
 	c := e.tc
 	secs, ok := e.exactDiv(d, 1000000000)
 	if !ok {
-		panic(unsupported("Time.Add with a duration that is not syntactically a whole number of seconds"))
+		panic(unsupported("Time.Add with a duration that is not syntactically a whole number of seconds: " + trunc(d.SMT(), 400)))
 	}
 	rng := e.inRange(secs, -172800, 172800)
 	if e.feasible(st, c.Not(rng), "Time.Add range") {
